@@ -146,8 +146,11 @@ def rf_spec(kind, plural=True, update=None, create=None, readonly=False, delete=
     spec = {
         "apiConfig": {"apiVersion": "c18.koreo.dev/v1", "kind": kind, "name": "=inputs.name", "namespace": "ns"},
         "preconditions": copy.deepcopy(PRE),
-        "resource": {"spec": {"a": "=inputs.a", "b": "=inputs.b"}},
+        "resource": {"spec": {"a": "=inputs.a", "b": "=inputs.b", "tags": ["=inputs.name", "zeta", "alpha"],
+                              "ports": [{"name": "http", "port": 80}, {"name": "admin", "port": "=8000 + inputs.a"}]}},
         "return": {"a": "=has(resource.spec) ? resource.spec.a : -1",
+                   "tags": "=has(resource.spec) && has(resource.spec.tags) ? resource.spec.tags : ['none', 'at', 'all']",
+                   "ports": "=has(resource.spec) && has(resource.spec.ports) ? resource.spec.ports : []",
                    "ready": "=has(resource.status) && has(resource.status.ready)",
                    "n": "=inputs.a + 1"},
     }
@@ -156,7 +159,9 @@ def rf_spec(kind, plural=True, update=None, create=None, readonly=False, delete=
         # a return value that reads the annotations: the next case's behaviour depends on the WHOLE
         # carried-forward object, metadata.annotations included
         spec["resource"] = {"metadata": {"annotations": {"team": "=inputs.name", "tier": "gold"}},
-                            "spec": {"x-koreo-compare-last-applied": ["a"], "a": "=inputs.a", "b": "=inputs.b"}}
+                            "spec": {"x-koreo-compare-last-applied": ["a"], "a": "=inputs.a", "b": "=inputs.b",
+                                     "tags": ["=inputs.name", "zeta", "alpha"],
+                                     "ports": [{"name": "http", "port": 80}, {"name": "admin", "port": "=8000 + inputs.a"}]}}
         spec["return"]["annotations"] = ("=has(resource.metadata.annotations) ? "
                                          "size(resource.metadata.annotations) : 0")
     if plural:
@@ -192,7 +197,9 @@ def zoo():
         {"kind": "ValueFunction", "name": "c18-value", "spec": {
             "preconditions": copy.deepcopy(PRE),
             "locals": {"twice": "=inputs.a * 2"},
-            "return": {"twice": "=locals.twice", "b": "=inputs.b", "name": "=inputs.name"}}},
+            "return": {"twice": "=locals.twice", "b": "=inputs.b", "name": "=inputs.name",
+                       "tags": ["=inputs.name", "zeta", "alpha"],
+                       "ports": [{"name": "http", "port": "=inputs.a"}, {"name": "admin", "port": 9}]}}},
         {"kind": "ValueFunction", "name": "c18-value-res", "spec": {
             "preconditions": copy.deepcopy(PRE),
             "return": {"seen": "=resource.spec.a + inputs.a", "status": {"from": "=inputs.name"}}}},
@@ -230,6 +237,9 @@ def gen_resource(rng, kind, inputs):
            "metadata": {"name": inputs.get("name", "w1"), "namespace": "ns"},
            "spec": {"a": inputs.get("a", 1) if rng.random() < 0.6 else rng.choice([0, 1, 2, 9]),
                     "b": copy.deepcopy(inputs.get("b", {"x": 1})) if rng.random() < 0.7 else {"x": 9}}}
+    if rng.random() < 0.6:
+        res["spec"]["tags"] = [inputs.get("name", "w1"), "zeta", "alpha"] if rng.random() < 0.7 else ["alpha", "zeta"]
+        res["spec"]["ports"] = [{"name": "http", "port": 80}, {"name": "admin", "port": 8000 + (inputs.get("a") if isinstance(inputs.get("a"), int) else 1)}]
     if rng.random() < 0.5:
         res["status"] = {"ready": True}
     if rng.random() < 0.1:
@@ -358,7 +368,68 @@ def outcome_assertion(view, truthful, rng):
     return {"expectOutcome": {other: body}}
 
 
+def _scalar(v):
+    return v is None or isinstance(v, (bool, int, float, str))
+
+
+def directivise(doc, rng):
+    """an expectation equivalent to `doc` that only matches THANKS TO compare directives: lists of distinct
+    scalars are listed in x-koreo-compare-as-set and their members permuted, lists of objects with distinct
+    `name`s are listed in x-koreo-compare-as-map (keyed by name) and their items permuted.
+    Returns (expectation, number of directives used)."""
+    if isinstance(doc, list):
+        out, n = [], 0
+        for x in doc:
+            y, m = directivise(x, rng)
+            out.append(y)
+            n += m
+        return out, n
+    if not isinstance(doc, dict):
+        return doc, 0
+    out, n, as_set, as_map = {}, 0, [], {}
+    for k, v in doc.items():
+        if isinstance(v, list) and len(v) >= 2 and all(_scalar(x) for x in v) \
+                and len({(type(x).__name__, x) for x in v}) == len(v):
+            perm = list(reversed(v))
+            if rng.random() < 0.5:
+                perm = perm[1:] + perm[:1]
+            if perm == v:
+                perm = v[1:] + v[:1]
+            out[k] = perm
+            as_set.append(k)
+            n += 1
+        elif isinstance(v, list) and len(v) >= 2 and all(isinstance(x, dict) and _scalar(x.get("name")) and "name" in x for x in v) \
+                and len({str(x["name"]) for x in v}) == len(v):
+            items = [directivise(x, rng)[0] for x in v]
+            out[k] = list(reversed(items))
+            as_map[k] = ["name"]
+            n += 1
+        else:
+            out[k], m = directivise(v, rng)
+            n += m
+    if as_set:
+        out["x-koreo-compare-as-set"] = as_set
+    if as_map:
+        out["x-koreo-compare-as-map"] = as_map
+    return out, n
+
+
+def maybe_directivise(a, rng):
+    """rewrite a truthful expectReturn / expectResource so that it needs the compare directives (most of the time)"""
+    for key in ("expectReturn", "expectResource"):
+        if key in a and rng.random() < 0.7:
+            doc, n = directivise(a[key], rng)
+            if n:
+                return {key: doc}
+    return a
+
+
 def build_assertion(fn, pref, truthful, ob, rng):
+    a = _build_assertion(fn, pref, truthful, ob, rng)
+    return maybe_directivise(a, rng) if truthful else a
+
+
+def _build_assertion(fn, pref, truthful, ob, rng):
     """an assertion of the preferred kind that is true / false of the observed run `ob`"""
     view, mat, deleted = ob["outcome"], ob["mat"], ob["deleted"]
     is_rf = fn["kind"] == "ResourceFunction"
@@ -1016,6 +1087,60 @@ async def fix_assertions(env, fn, test, plan, rng, repair=True):
     return ob
 
 
+_SHRUNK: set = set()
+
+
+async def monitor(env, fn, test, ft=None, fx_before=None, fut_before=None, ob=None):
+    """snapshot monitor + run-twice on one FunctionTest: {signature: (what, observed, expected)}"""
+    if ft is None:
+        fut_before = fingerprint(env.function(fn))
+        ft = await env.prepare(test)
+        fx_before = fixture_fingerprint(ft)
+        ob = await env.run(ft, record=False)
+    out = {}
+    fx_after = fixture_fingerprint(ft)
+    if fx_after != fx_before:
+        which = [k for k in fx_before if fx_before[k] != fx_after[k]]
+        detail = None
+        if "cases" in which:
+            i = next(i for i, (a, b) in enumerate(zip(fx_before["cases"], fx_after["cases"])) if a != b)
+            detail = {"case_index": i, "before": fx_before["cases"][i], "after": fx_after["cases"][i]}
+        out["fixtures modified by the run: " + ",".join(which)] = (
+            "running the FunctionTest changed its own fixtures (" + ", ".join(which) + ")", detail or fx_after, None if detail else fx_before)
+    if fingerprint(env.function(fn)) != fut_before:
+        out["function under test modified by the run"] = (
+            "running the FunctionTest changed the prepared Function under test", fingerprint(env.function(fn)), fut_before)
+    # same prepared object, second run: per-case verdicts and results of run 2 == run 1
+    ob2 = await env.run(ft, record=False)
+    if skey(jsonable(ob2["results"])) != skey(jsonable(ob["results"])) or ob2["fatal"] != ob["fatal"] or ob2["raised"] != ob["raised"]:
+        out["second run of the same FunctionTest differs"] = (
+            "running the same prepared FunctionTest twice gives different results", ob2["results"], ob["results"])
+    return out
+
+
+async def monitor_has(env, fn, test, sig):
+    try:
+        return sig in await monitor(env, fn, test)
+    except PrepareError:
+        return False
+
+
+async def shrink_cases(env, test, still):
+    """greedily drop cases (last first) while `await still(test)` holds"""
+    cases = list(test["cases"])
+    i = len(cases) - 1
+    while i >= 0 and len(cases) > 1:
+        cand = cases[:i] + cases[i + 1:]
+        try:
+            ok = await still(dict(test, cases=cand))
+        except Exception:
+            ok = False
+        if ok:
+            cases = cand
+        i -= 1
+    return dict(test, cases=cases)
+
+
 async def check_test(ctx: Ctx, env: Env, fn, test, rng, cases_out, terms_out, do_derive=True, derive_kinds=None):
     """run T and its derived tests; oracle + snapshot monitor; collect correspondence terms.
     Returns the base observation."""
@@ -1023,24 +1148,15 @@ async def check_test(ctx: Ctx, env: Env, fn, test, rng, cases_out, terms_out, do
     ft = await env.prepare(test)
     fx_before = fixture_fingerprint(ft)
     ob = await env.run(ft)
-    fx_after = fixture_fingerprint(ft)
-    if fx_after != fx_before:
-        which = [k for k in fx_before if fx_before[k] != fx_after[k]]
-        ctx.fail(Failure(signature="fixtures modified by the run: " + ",".join(which),
-                         what="running the FunctionTest changed its own fixtures (" + ", ".join(which) + ")",
-                         case=test, observed=fx_after, expected=fx_before))
-    if fingerprint(env.function(fn)) != fut_before:
-        ctx.fail(Failure(signature="function under test modified by the run",
-                         what="running the FunctionTest changed the prepared Function under test",
-                         case=test, observed=fingerprint(env.function(fn)), expected=fut_before))
     if ob["raised"]:
         ctx.count("run:raised")
-    # same prepared object, second run
-    ob2 = await env.run(ft, record=False)
-    if skey(jsonable(ob2["results"])) != skey(jsonable(ob["results"])) or ob2["fatal"] != ob["fatal"] or ob2["raised"] != ob["raised"]:
-        ctx.fail(Failure(signature="second run of the same FunctionTest differs",
-                         what="running the same prepared FunctionTest twice gives different results",
-                         case=test, observed=ob2["results"], expected=ob["results"]))
+    found = await monitor(env, fn, test, ft=ft, fx_before=fx_before, fut_before=fut_before, ob=ob)
+    for sig, (what, observed, expected) in found.items():
+        small = test
+        if sig not in _SHRUNK:          # shrink the first failure of each kind only (check.py reports one per signature)
+            _SHRUNK.add(sig)
+            small = await shrink_cases(env, test, lambda t, sig=sig: monitor_has(env, fn, t, sig))
+        ctx.fail(Failure(signature=sig, what=what, case={"test": small}, observed=observed, expected=expected))
     bad = chain_oracle(test, ob)
     if bad:
         sig, k, got, want = bad
@@ -1099,6 +1215,7 @@ async def check_test(ctx: Ctx, env: Env, fn, test, rng, cases_out, terms_out, do
     # fold the prefix: case k alone, started from what the last non-variant case before it produced
     await fold_prefix_oracle(ctx, env, test, ob, rng)
     await assertion_swap_oracle(ctx, env, fn, test, ob, rng)
+    await duplicate_variant_oracle(ctx, env, test, ob, rng)
     # freshly prepared, after everything else ran against the same function
     ft3 = await env.prepare(test)
     ob3 = await env.run(ft3, record=False)
@@ -1175,6 +1292,38 @@ async def assertion_swap_oracle(ctx, env, fn, test, ob, rng):
                          what="changing only HOW an earlier passing case asserts (both assertions true) changes a later case: " + what,
                          case={"test": test, "derived": small, "how": "assertion-swapped"},
                          expected="identical results for every other case"))
+
+
+async def duplicate_variant_oracle(ctx, env, test, ob, rng):
+    """a variant case repeated right after itself — the copy SHARING the expectation object, as a YAML
+    alias would — starts from the same state and is the same case, so it must get the same result"""
+    if ob["raised"] or len(test["cases"]) >= 20:
+        return
+    ks = [k for k, c in enumerate(test["cases"]) if c.get("variant") and not c.get("skip") and k < len(ob["results"])
+          and (k >= len(ob["trace"]) or case_kind(test, k, ob["trace"][k]) == 4)]
+    if not ks:
+        return
+    k = rng.choice(ks)
+    cases = copy.deepcopy(test["cases"])
+    dup = dict(cases[k])                 # shallow: the assertion / overrides objects are shared with case k
+    dup["label"] = "dup"
+    cases.insert(k + 1, dup)
+    der = dict(test, cases=cases)
+    try:
+        dob = await env.run(await env.prepare(der), record=False)
+    except PrepareError:
+        return
+    if dob["raised"] or len(dob["results"]) <= k + 1:
+        return
+    ctx.count("derived:variant-duplicated-in-place")
+    ra, rb = dob["results"][k], dob["results"][k + 1]
+    for field in ("pass", "outcome", "message", "differences"):
+        if skey(jsonable(ra[field])) != skey(jsonable(rb[field])):
+            small = dict(der, cases=cases[:k + 2])
+            ctx.fail(Failure(signature=f"variant-duplicated-in-place: result-{field}",
+                             what=f"a variant case repeated right after itself gets a different result: {field} {ra[field]!r} then {rb[field]!r}",
+                             case={"test": small, "how": "variant-duplicated-in-place"}, observed=rb, expected=ra))
+            return
 
 
 async def fold_prefix_oracle(ctx, env, test, ob, rng):
@@ -1334,6 +1483,7 @@ def nontrivial(test, ob):
 async def amain(ctx: Ctx, tests_from_corpus, n_tests):
     env = Env()
     install()
+    _SHRUNK.clear()
     cases, terms = [], []
     try:
         await env.setup()
@@ -1349,12 +1499,13 @@ async def amain(ctx: Ctx, tests_from_corpus, n_tests):
                 ob = await check_test(ctx, env, fn, copy.deepcopy(t), ctx.rng, cases, terms)
                 ctx.note_case(t, nontrivial(t, ob))
                 ctx.count("corpus")
+                await dup_entry_check(ctx, env, t, entry)
                 if "derived" in entry and entry.get("how") != "fold-prefix":
                     der = entry["derived"]
                     dob = await env.run(await env.prepare(der))
                     bad = compare_runs(t, ob, der, dob, entry.get("how") != "variants-moved",
                                        exclude=pair_exclude(t, der, entry.get("how")))
-                    if bad:
+                    if bad and pair_judgeable(t, ob, der, dob, entry.get("how")):
                         ctx.fail(Failure(signature=f"{entry.get('how')}: {bad[0]}", what=f"corpus pair: {bad[1]}", case=entry))
             except PrepareError:
                 ctx.count("corpus:prepare-failed")
@@ -1409,6 +1560,8 @@ def distribution(ctx, fn, test, ob):
         for a in ASSERT_KEYS:
             if a in c:
                 ctx.count("assert:" + a)
+                if isinstance(c[a], dict) and "x-koreo-compare-as-" in json.dumps(c[a]):
+                    ctx.count("assert:" + a + "+directive" + (":pass" if k < len(ob["results"]) and ob["results"][k]["pass"] else ":fail"))
         if tr["fut"] and tr["fut"]["outcome"]:
             ctx.count("outcome:" + tr["fut"]["outcome"]["class"])
         if tr["calls"]:
@@ -1430,6 +1583,34 @@ def run(ctx: Ctx):
         ctx.correspond("MockApi vs api_run", "Corr_C18", acases, aterms, check_fn="check_api")
 
 
+async def dup_entry_check(ctx, env, test, entry):
+    """stored `variant-duplicated-in-place` input: the last case is the previous one again, sharing its objects"""
+    if entry.get("how") != "variant-duplicated-in-place" or len(test["cases"]) < 2:
+        return
+    cases_ = copy.deepcopy(test["cases"])
+    cases_[-1] = dict(cases_[-2], label="dup")          # JSON lost the sharing: restore it
+    dob = await env.run(await env.prepare(dict(test, cases=cases_)), record=False)
+    if not dob["raised"] and len(dob["results"]) == len(cases_):
+        ra, rb = dob["results"][-2], dob["results"][-1]
+        for field in ("pass", "outcome", "message", "differences"):
+            if skey(jsonable(ra[field])) != skey(jsonable(rb[field])):
+                ctx.fail(Failure(signature=f"variant-duplicated-in-place: result-{field}",
+                                 what=f"{field} {ra[field]!r} then {rb[field]!r}", case=entry))
+                break
+
+
+def pair_judgeable(test, ob, der, dob, how):
+    """an assertion-swapped pair says something only if the swapped cases pass in both runs"""
+    if how != "assertion-swapped":
+        return True
+    ex = pair_exclude(test, der, how)
+    for t, o in ((test, ob), (der, dob)):
+        for k, c in enumerate(t["cases"]):
+            if c["label"] in ex and (k >= len(o["results"]) or not o["results"][k]["pass"]):
+                return False
+    return True
+
+
 def pair_exclude(test, der, how):
     """labels not to compare in a stored (test, derived) pair"""
     if how != "assertion-swapped":
@@ -1449,6 +1630,7 @@ async def areplay(ctx: Ctx, case):
         fn = next(f for f in env.fns if f["name"] == test["fn"])
         ob = await check_test(ctx, env, fn, copy.deepcopy(test), ctx.rng, cases, terms, do_derive="derived" not in case)
         ctx.note_case(test, True)
+        await dup_entry_check(ctx, env, test, case)
         if "derived" in case:
             der = case["derived"]
             how = case.get("how", "derived")
@@ -1468,7 +1650,7 @@ async def areplay(ctx: Ctx, case):
                             break
             else:
                 bad = compare_runs(test, ob, der, dob, how != "variants-moved", exclude=pair_exclude(test, der, how))
-                if bad:
+                if bad and pair_judgeable(test, ob, der, dob, how):
                     ctx.fail(Failure(signature=f"{how}: {bad[0]}", what=f"{how}: {bad[1]}", case=case))
     finally:
         try:
